@@ -9,6 +9,7 @@ from . import common, molprops
 
 SPEC = {
     "level": "exploration",
+    "suite_under_monitor": True,
     "technique": "runtime contract (icontract snapshot+ensure) on permute_molecule with unique atom/bond tags",
     "rule": ("cases: M1 n<=4, M2, M3, M4, M5, stars and K_n minus one edge (few edge-changing permutations -> long retry loops), K_n (no enforcement), "
              "0/1-bond molecules, corpus; graphs with non-consecutive / string labels; seeds on a grid of [0,1) and random. Also the library's own caller "
